@@ -225,7 +225,8 @@ example : reqNew ([] :: (filterNode (maybeKeep (.comp { del := some true } .dict
 /- "every older entry is gone except those explicitly protected by a strictly higher priority, at
    any depth": for a mapping `self` with distinct keys and a deleting `other`, `filter_nodes`
    leaves exactly `keptChildren (maybe_keep)`; when something survives (or `other` does not have
-   priority) the merge continues with the ordinary key loop over the survivors only. -/
+   priority) the merge continues with the ordinary key loop over the survivors only (the removed
+   paths are the `exceptions` of `_require_all_new` for the keys that have to be created). -/
 theorem C04_del_protected_dict (rec : Node → Node → Except Err (Node × Bool)) (sf of : Flags)
     (sk ok : CompKind) (scs ocs : List (Key × Node))
     (hdel : eDel (.comp of ok ocs) = true) (hsk : sk.isDictFam = true) (hn : keysNodup scs = true)
@@ -233,7 +234,8 @@ theorem C04_del_protected_dict (rec : Node → Node → Except Err (Node × Bool
     (filterNode (maybeKeep (.comp of ok ocs)) [] (.comp sf sk scs)).1 =
         .comp sf sk (keptChildren (maybeKeep (.comp of ok ocs)) [] scs) ∧
     compMerge rec sf sk scs (.comp of ok ocs) =
-      match mergeLoop rec sf sk (keptChildren (maybeKeep (.comp of ok ocs)) [] scs) ocs with
+      match mergeLoop rec sf sk (filterNode (maybeKeep (.comp of ok ocs)) [] (.comp sf sk scs)).2
+          (keptChildren (maybeKeep (.comp of ok ocs)) [] scs) ocs with
       | .error e => .error e
       | .ok scs' => finishMerge sf sk scs' (.comp of ok ocs) := by
   refine ⟨c04_filterNode_dict_kept _ _ sf sk scs hsk hn, ?_⟩
@@ -319,7 +321,7 @@ example : noneKeptList (maybeKeep c04O) [.str "r"] [(.int 0, .leaf { iDel := som
 theorem C04_merge_keywise (rec : Node → Node → Except Err (Node × Bool)) (sf of : Flags)
     (sk ok : CompKind) (scs ocs : List (Key × Node)) (hlive : eDel (.comp of ok ocs) = false) :
     compMerge rec sf sk scs (.comp of ok ocs) =
-      match mergeLoop rec sf sk scs ocs with
+      match mergeLoop rec sf sk [] scs ocs with
       | .error e => .error e
       | .ok scs' => finishMerge sf sk scs' (.comp of ok ocs) := by
   simp only [compMerge, hlive, Bool.false_eq_true, if_false]
@@ -333,14 +335,14 @@ example : eDel c04M = false := by decide
    falsy leaf replacing a leaf), a missing key is appended at the end, anything else leaves the
    key list (and the position of the key) unchanged. -/
 theorem C04_merge_step_keys (rec : Node → Node → Except Err (Node × Bool)) (sf : Flags) (sk : CompKind)
-    (hsk : sk.isDictFam = true) (acc acc' : List (Key × Node)) (kv : Key × Node)
-    (h : mergeStep rec sf sk acc kv = .ok acc') :
+    (exc : List Path) (hsk : sk.isDictFam = true) (acc acc' : List (Key × Node)) (kv : Key × Node)
+    (h : mergeStep rec sf sk exc acc kv = .ok acc') :
     akeys acc' =
       if stepRemoves rec sk acc kv then (akeys acc).erase kv.1
       else if kv.1 ∈ akeys acc then akeys acc else akeys acc ++ [kv.1] :=
   c04_mergeStep_keys rec hsk h
 
-example : ∃ acc', mergeStep (mergeF 2) {} .dict c04Scs (.str "n", .leaf {} (.scalar (.int 2))) = .ok acc' :=
+example : ∃ acc', mergeStep (mergeF 2) {} .dict [] c04Scs (.str "n", .leaf {} (.scalar (.int 2))) = .ok acc' :=
   ⟨_, rfl⟩
 
 /- "… combine key-wise": mapping ⊕ non-deleting mapping whose values carry no explicit `!del` (so
@@ -353,7 +355,7 @@ theorem C04_merge_keys (fuel : Nat) (sf of : Flags) (scs ocs : List (Key × Node
     akeys r.children = akeys scs ++ newKeys (akeys scs) (akeys ocs) ∧ s = true := by
   simp only [mergeF] at h
   rw [C04_merge_keywise _ sf of .dict .dict scs ocs hlive] at h
-  cases hl : mergeLoop (mergeF fuel) sf .dict scs ocs with
+  cases hl : mergeLoop (mergeF fuel) sf .dict [] scs ocs with
   | error e => simp [hl] at h
   | ok scs' =>
     simp only [hl] at h
@@ -369,9 +371,9 @@ example : newKeys [.str "p", .str "q"] [.str "q", .str "n", .str "n"] = [.str "n
 /- "… common keys merged" (recursively, by the same merge): in the loop of a mapping with a newer
    mapping with distinct keys and no explicit `!del` values, a key present on both sides ends up
    holding the result of merging the two old values (re-adopted when it is a new object). -/
-theorem C04_merge_common (fuel : Nat) (sf : Flags) (sk : CompKind) (hsk : sk.isDictFam = true)
+theorem C04_merge_common (fuel : Nat) (sf : Flags) (sk : CompKind) (exc : List Path) (hsk : sk.isDictFam = true)
     (scs ocs scs' : List (Key × Node)) (hnd : noExplicitDel ocs = true) (hn : keysNodup ocs = true)
-    (h : mergeLoop (mergeF fuel) sf sk scs ocs = .ok scs')
+    (h : mergeLoop (mergeF fuel) sf sk exc scs ocs = .ok scs')
     (k : Key) (c v : Node) (hc : alookup k scs = some c) (hv : alookup k ocs = some v) :
     ∃ nw same, mergeF fuel c v = .ok (nw, same) ∧
       alookup k scs' = some (if same then nw else adopt sf sk nw) ∧
@@ -397,10 +399,10 @@ example : c04Build [.map .none {} [(.str "a", .map .none {} [(.str "p", c04Int 1
    on success the result is again numbered, has length max n m, position i < min n m holds the
    recursive merge of the two old elements, positions n ≤ i < m hold the (adopted) newer elements,
    positions m ≤ i < n keep the old elements. -/
-theorem C04_merge_indexwise (fuel : Nat) (sf : Flags) (sk : CompKind) (hsk : sk.isDictFam = false)
+theorem C04_merge_indexwise (fuel : Nat) (sf : Flags) (sk : CompKind) (exc : List Path) (hsk : sk.isDictFam = false)
     (scs ocs scs' : List (Key × Node)) (hks : listKeys 0 scs = true) (hko : listKeys 0 ocs = true)
     (hnd : noExplicitDel ocs = true)
-    (h : mergeLoop (mergeF fuel) sf sk scs ocs = .ok scs') :
+    (h : mergeLoop (mergeF fuel) sf sk exc scs ocs = .ok scs') :
     listKeys 0 scs' = true ∧ scs'.length = max scs.length ocs.length ∧
     (∀ (i : Nat) (v : Node), alookup (.int (i : Int)) ocs = some v →
       if i < scs.length then
@@ -414,7 +416,7 @@ theorem C04_merge_indexwise (fuel : Nat) (sf : Flags) (sk : CompKind) (hsk : sk.
   intro i hi
   exact r3 i (c04_listKeys_lookup_none 0 ocs i hko (.inr (by omega)))
 
-example : ∃ scs', mergeLoop (mergeF 1) {} .list
+example : ∃ scs', mergeLoop (mergeF 1) {} .list []
     [(.int 0, .leaf { iDel := some true } (.scalar (.int 1))), (.int 1, .leaf { iDel := some true } (.scalar (.int 2)))]
     [(.int 0, .leaf { iDel := some false } (.scalar (.int 7))), (.int 1, .leaf { iDel := some false } (.scalar (.int 8))),
      (.int 2, .leaf { iDel := some false } (.scalar (.int 9)))] = .ok scs' := ⟨_, rfl⟩
@@ -433,11 +435,11 @@ example : c04Build [.map .none {} [(.str "a", .seq .none {} [c04Int 1, c04Int 2,
    is a leaf and the newer value is a leaf tagged `!del` that is falsy (an empty / null scalar) and
    is not outranked by the child, the iteration is `remove_child(key)`; in a mapping with distinct
    keys the key is gone afterwards. -/
-theorem C04_del_null_removes_key (fuel : Nat) (sf : Flags) (sk : CompKind) (acc : List (Key × Node))
+theorem C04_del_null_removes_key (fuel : Nat) (sf : Flags) (sk : CompKind) (exc : List Path) (acc : List (Key × Node))
     (k : Key) (cf vf : Flags) (ck vk : LeafKind)
     (hget : getChild sk k acc = some (.leaf cf ck))
     (hdel : vf.del = some true) (hfalsy : vk.truthy = false) (hwins : hasPrio cf vf false = false) :
-    mergeStep (mergeF (fuel + 1)) sf sk acc (k, .leaf vf vk) = removeChildE sf sk k acc ∧
+    mergeStep (mergeF (fuel + 1)) sf sk exc acc (k, .leaf vf vk) = removeChildE sf sk k acc ∧
       (sk.isDictFam = true → keysNodup acc = true →
         removeChildE sf sk k acc = .ok (aerase k acc) ∧ alookup k (aerase k acc) = none) := by
   constructor
@@ -465,13 +467,13 @@ example : c04Build [.map .none {} [(.str "a", .map .none {} [(.str "p", c04Int 1
    or list none of whose priorities exceeds that of the newer value, and the newer value is an
    explicitly `!del` EMPTY container (not a function node), the child is emptied by the early exit
    and the iteration is `remove_child(key)`. -/
-theorem C04_del_empty_container_removes_key (fuel : Nat) (sf : Flags) (sk : CompKind)
+theorem C04_del_empty_container_removes_key (fuel : Nat) (sf : Flags) (sk : CompKind) (exc : List Path)
     (acc : List (Key × Node)) (k : Key) (cf vf : Flags) (ck vk : CompKind) (ccs : List (Key × Node))
     (hget : getChild sk k acc = some (.comp cf ck ccs))
     (hck : ck = .dict ∨ ck = .list) (hwf : wfKeys (.comp cf ck ccs) = true)
     (hdel : vf.del = some true) (hvk : vk.isFunc = false)
     (hle : prioLe (ePrio vf) (.comp cf ck ccs) = true) :
-    mergeStep (mergeF (fuel + 2)) sf sk acc (k, .comp vf vk []) = removeChildE sf sk k acc := by
+    mergeStep (mergeF (fuel + 2)) sf sk exc acc (k, .comp vf vk []) = removeChildE sf sk k acc := by
   have hd : eDel (.comp vf vk []) = true := c04_eDel_of_explicit hdel
   have hm := (C04_del_exact_prio fuel (ePrio vf) cf vf ck vk ccs [] hck hwf hd hle
     (c04_prioGe_empty vf vk) rfl).1
